@@ -53,7 +53,7 @@ REQ_POOL = {
     "inherited": ["id", "tag-x", "extra"],
     "inherited_far": ["mid", "id"],
     "undeclared": ["namespace", "ghost", "Ghost Name", "class", "_hidden", "1st"],
-    "empty": [""],  # see EMPTY_NAME below
+    "empty": [""],  # an ordinary name since the repair of C01-required-empty-name (corpus of c01.py)
 }
 OPTION_POOL = [
     {}, {}, {}, {"force_optional_for_required_fields": True}, {"apply_default_values_for_required_fields": True}, {"reuse_model": True},
